@@ -18,6 +18,7 @@ Seeds(c) ==
     [] c = "VAR" -> {<<2, 3, 1, -1>>, <<2, 5, 0, 8>>}
     [] c = "VCOLL" -> {<<<<<<1, 2>>, <<4, 6>>>>>>, <<<<<<3, 4>>>>>>}
     [] c = "COLL" -> {<<-1, -1, 1>>, <<0, 20, 2>>}
+    [] c = "PMODEL" -> {<<TRUE, 2, 6>>, <<TRUE, 0, 4>>}
     [] c = "PARENT" -> {<<5, 8, "", "+">>, <<5, -1, "+", "+">>}
     [] c = "QPOS" -> {<<10, 40, 12, 30, TRUE, TRUE>>, <<10, 40, 0, 30, FALSE, TRUE>>, <<5, 40, 6, 0, TRUE, FALSE>>,
                       <<0, 40, 0, 20, TRUE, TRUE>>, <<3, 30, 0, 0, FALSE, FALSE>>}
